@@ -139,6 +139,16 @@ func reflectZeroHits(fn *ssa.Function) []reflectHit {
 			name := calleeFullName(in)
 			if strings.HasPrefix(name, "(reflect.Value).") && len(com.Args) > 0 {
 				m := strings.TrimPrefix(name, "(reflect.Value).")
+				// argument sinks: a zero Value stored as a map element deletes the key silently; Set/Append of it panic
+				argSinks := map[string][]int{"SetMapIndex": {2}, "Set": {1}}
+				for _, ai := range argSinks[m] {
+					if ai < len(com.Args) {
+						a := com.Args[ai]
+						if what := zeroValueSource(a, 0); what != "" && !validGuarded(in.Block(), a) && !srcNonNilGuarded(in.Block(), a) {
+							out = append(out, reflectHit{fn, in, a, what, "argument of Value." + m, false})
+						}
+					}
+				}
 				if reflectValueSinks[m] {
 					recv := com.Args[0]
 					if what := zeroValueSource(recv, 0); what != "" && !validGuarded(in.Block(), recv) && !srcNonNilGuarded(in.Block(), recv) {
@@ -243,7 +253,40 @@ func srcNonNilGuarded(b *ssa.BasicBlock, v ssa.Value) bool {
 	if !ok || calleeFullName(c) != "reflect.ValueOf" {
 		return false
 	}
-	return nonNilGuarded(b, c.Call.Args[0])
+	arg := c.Call.Args[0]
+	if nonNilGuarded(b, arg) {
+		return true
+	}
+	// the dynamic type of the same interface value was established non-nil: `reflect.TypeOf(x) != nil`, or
+	// `reflect.TypeOf(x) == t` with t itself established non-nil
+	typeOfArg := func(v ssa.Value) bool {
+		tc, ok := v.(*ssa.Call)
+		if !ok || calleeFullName(tc) != "reflect.TypeOf" {
+			return false
+		}
+		a := tc.Call.Args[0]
+		return a == arg || sameLoad(a, arg)
+	}
+	return hasGuard(b, func(g guard) bool {
+		if guardNonNil(g, typeOfArg) {
+			return true
+		}
+		op, x, y, ok := asCmp(g.cond)
+		if !ok || !((op == token.EQL && g.pol) || (op == token.NEQ && !g.pol)) {
+			return false
+		}
+		for _, p := range [][2]ssa.Value{{x, y}, {y, x}} {
+			if typeOfArg(p[0]) && isReflectType(p[1].Type()) {
+				other := p[1]
+				if hasGuard(g.at.Block(), func(g2 guard) bool {
+					return guardNonNil(g2, func(v ssa.Value) bool { return v == other })
+				}) {
+					return true
+				}
+			}
+		}
+		return false
+	})
 }
 
 // ruleReflectZero applies the typestate to the given functions with a frozen exception table keyed by construct.
